@@ -3,3 +3,531 @@ From BVA Require Import Base.Prelude Base.Result Base.Words Base.Limbs.
 From BVA Require Import Model.Core Model.Ops Model.Arith Model.Conv Model.Auto Model.Run Spec.Spec Spec.Prop.
 From BVA Require Import Proofs.Common Proofs.Rechunk Proofs.Lift.
 From Coq Require Import ZifyBool ZifyN ZifyNat.
+From BVA Require Import Proofs.Edit Proofs.Pairings Proofs.ConvP Proofs.XEdit Proofs.XObs Proofs.Append.
+
+(* Division with remainder (property C02), insert, and decimal formatting (property C14). *)
+
+(* ------------------------------------------------------------------ arithmetic *)
+
+Lemma div_rem_identity a b : b <> 0 -> (a / b) * b + a mod b = a /\ a mod b < b.
+Proof.
+  intros H. split.
+  - rewrite N.mul_comm. symmetry. apply N.div_mod. assumption.
+  - apply N.mod_lt. assumption.
+Qed.
+
+Lemma size_low x : x <> 0 -> 2 ^ (N.size x - 1) <= x.
+Proof.
+  intros H. rewrite N.size_log2 by assumption. rewrite N.sub_1_r, N.pred_succ.
+  apply N.log2_spec. lia.
+Qed.
+
+Lemma size_pos x : x <> 0 -> 1 <= N.size x.
+Proof. intros H. rewrite N.size_log2 by assumption. lia. Qed.
+
+(* the early return: fewer significant bits than the divisor *)
+Lemma small_div A B : B <> 0 -> N.size A < N.size B -> A / B = 0 /\ A mod B = A.
+Proof.
+  intros HB H. assert (A < B) as Hlt.
+  { apply N.lt_le_trans with (2 ^ N.size A); [apply size_lt_pow2|].
+    apply N.le_trans with (2 ^ (N.size B - 1)); [apply pow2_le; lia|apply size_low; assumption]. }
+  split; [apply N.div_small|apply N.mod_small]; assumption.
+Qed.
+
+Lemma pow2_succ j : 2 ^ (j + 1) = 2 * 2 ^ j.
+Proof. rewrite N.add_1_r. apply N.pow_succ_r'. Qed.
+
+Lemma mod_pow2_succ_0 Q j : Q mod 2 ^ (j + 1) = 0 -> exists c, Q = 2 ^ (j + 1) * c.
+Proof.
+  intros H. exists (Q / 2 ^ (j + 1)). pose proof (div_mod_eq Q (2 ^ (j + 1))) as E. rewrite H in E. lia.
+Qed.
+
+Lemma lor_bit Q j : Q mod 2 ^ (j + 1) = 0 -> N.lor Q (2 ^ j) = Q + 2 ^ j.
+Proof.
+  intros H. destruct (mod_pow2_succ_0 Q j H) as [c ->].
+  rewrite N.lor_comm, lor_disjoint_add; [lia|]. apply pow2_lt. lia.
+Qed.
+
+Lemma step_keep Q j : Q mod 2 ^ (j + 1) = 0 -> Q mod 2 ^ j = 0.
+Proof.
+  intros H. destruct (mod_pow2_succ_0 Q j H) as [c ->]. rewrite pow2_succ.
+  replace (2 * 2 ^ j * c) with ((2 * c) * 2 ^ j) by lia. apply N.mod_mul, pow2_ne0.
+Qed.
+
+Lemma step_sub A B j Q R :
+  R < B * 2 ^ (j + 1) -> B * 2 ^ j <= R -> Q mod 2 ^ (j + 1) = 0 -> A = Q * B + R ->
+  R - B * 2 ^ j < B * 2 ^ j /\ (Q + 2 ^ j) mod 2 ^ j = 0 /\ A = (Q + 2 ^ j) * B + (R - B * 2 ^ j).
+Proof.
+  intros HR HD HQ HA. destruct (mod_pow2_succ_0 Q j HQ) as [c ->]. rewrite pow2_succ in *.
+  set (p := 2 ^ j) in *. split; [lia|]. split; [|lia].
+  replace (2 * p * c + p) with ((2 * c + 1) * p) by lia. apply N.mod_mul. unfold p. apply pow2_ne0.
+Qed.
+
+Lemma half_shift B j : N.shiftr (B * 2 ^ (j + 1)) 1 = B * 2 ^ j.
+Proof.
+  rewrite N.shiftr_div_pow2, pow2_succ. change (2 ^ 1) with 2.
+  replace (B * (2 * 2 ^ j)) with ((B * 2 ^ j) * 2) by lia. apply N.div_mul. lia.
+Qed.
+
+(* ------------------------------------------------------------------ value-level views of the operations used *)
+
+Lemma abs_inv r n x : Good r -> abs r = mkbv n x -> xlen r = n /\ val r = x.
+Proof. intros Hr H. rewrite (abs_Good r Hr) in H. injection H as H1 H2. split; assumption. Qed.
+
+Lemma cmp_val a b : Good a -> Good b -> x_cmp a b = N.compare (val a) (val b).
+Proof.
+  intros Ha Hb. rewrite (x_cmp_spec a b Ha Hb), (abs_Good a Ha), (abs_Good b Hb). reflexivity.
+Qed.
+
+Lemma sub_val a b : Good a -> Good b -> val b <= val a ->
+  exists r, x_addsub OpSub a b = Ok r /\ Good r /\ kind_of r = kind_of a /\ xlen r = xlen a /\
+            val r = val a - val b.
+Proof.
+  intros Ha Hb Hle. destruct (x_addsub_spec OpSub a b Ha Hb) as (r & E & Hr & Hk & _ & Habs).
+  exists r. split; [exact E|]. split; [exact Hr|]. split; [exact Hk|].
+  apply abs_inv; [exact Hr|]. rewrite Habs, (abs_Good a Ha), (abs_Good b Hb).
+  cbn [s_addsub]. unfold s_sub. cbn [blen bval]. f_equal.
+  pose proof (Good_val_lt a Ha) as Hlt.
+  rewrite pow2_eq, (trunc_small (xlen a) (val b)) by lia. rewrite trunc_mod.
+  replace (val a + 2 ^ xlen a - val b) with ((val a - val b) + 1 * 2 ^ xlen a) by lia.
+  rewrite N.mod_add by apply pow2_ne0. apply N.mod_small. lia.
+Qed.
+
+Lemma set1_val P q i : Good q -> i < xlen q -> val q mod 2 ^ (i + 1) = 0 ->
+  exists r, x_set P q i 1 = Ok r /\ Good r /\ kind_of r = kind_of q /\ xlen r = xlen q /\
+            val r = val q + 2 ^ i.
+Proof.
+  intros Hq Hi Hm. destruct (x_set_spec P q i 1 Hq Hi ltac:(lia)) as (r & E & Hr & Hk & Habs).
+  exists r. split; [exact E|]. split; [exact Hr|]. split; [exact Hk|].
+  apply abs_inv; [exact Hr|]. rewrite Habs, (abs_Good q Hq). unfold s_set. cbn [blen bval].
+  change (1 =? 0) with false. cbv iota. rewrite pow2_eq, lor_bit by assumption. reflexivity.
+Qed.
+
+Lemma shr1_val d : Good d -> xlen d < 2 ^ 62 ->
+  exists r, x_shr_assign d 1 = Ok r /\ Good r /\ kind_of r = kind_of d /\ xlen r = xlen d /\
+            (1 < xlen d -> val r = N.shiftr (val d) 1).
+Proof.
+  intros Hd Hl. destruct (x_shr_assign_spec d 1 Hd Hl) as (r & E & Hr & Hk & Habs).
+  exists r. split; [exact E|]. split; [exact Hr|]. split; [exact Hk|].
+  rewrite (abs_Good d Hd) in Habs. unfold s_shr in Habs. cbn [blen bval] in Habs.
+  apply (abs_inv r _ _ Hr) in Habs. destruct Habs as [H1 H2]. split; [exact H1|].
+  intros H. rewrite H2. assert (1 <? xlen d = true) as -> by (apply N.ltb_lt; assumption). reflexivity.
+Qed.
+
+(* ------------------------------------------------------------------ the loop *)
+
+Lemma div_loop_spec P A B n K : 0 < B -> n < 2 ^ 62 ->
+  forall k rem dv q,
+    Good rem -> Good dv -> Good q -> xlen rem = n -> xlen dv = n -> xlen q = n ->
+    kind_of rem = K -> kind_of q = K -> N.of_nat k < n ->
+    val dv = B * 2 ^ N.of_nat k -> val rem < B * 2 ^ (N.of_nat k + 1) ->
+    val q mod 2 ^ (N.of_nat k + 1) = 0 -> A = val q * B + val rem ->
+    exists q' r', div_loop P k rem dv q = Ok (q', r') /\ Good q' /\ Good r' /\
+                  kind_of q' = K /\ kind_of r' = K /\ xlen q' = n /\ xlen r' = n /\
+                  val q' = A / B /\ val r' = A mod B.
+Proof.
+  intros HB Hn. induction k as [|k IH]; intros rem dv q Hrem Hdv Hq Lr Ld Lq Kr Kq Hk Vd Vr Vq HA.
+  - (* last iteration *)
+    cbn [div_loop]. rewrite (cmp_val rem dv Hrem Hdv).
+    change (N.of_nat 0) with 0 in *. change (0 + 1) with 1 in *. rewrite N.pow_0_r, N.mul_1_r in Vd.
+    assert (exists q' r', (match val rem ?= val dv with
+                           | Lt => Ok (rem, q)
+                           | _ => let! rem' := x_addsub OpSub rem dv in
+                                  let! q' := x_set P q 0 1 in Ok (rem', q')
+                           end) = Ok (r', q') /\ Good q' /\ Good r' /\ kind_of q' = K /\ kind_of r' = K /\
+                          xlen q' = n /\ xlen r' = n /\ val r' < B /\ A = val q' * B + val r')
+      as (q' & r' & E & Hq' & Hr' & Kq' & Kr' & Lq' & Lr' & Vr' & HA').
+    { destruct (N.compare_spec (val rem) (val dv)) as [He|Hlt|Hgt].
+      - destruct (sub_val rem dv Hrem Hdv ltac:(lia)) as (r' & -> & Hr' & Kr' & Lr' & Vr').
+        destruct (set1_val P q 0 Hq ltac:(lia) Vq) as (q' & -> & Hq' & Kq' & Lq' & Vq').
+        exists q', r'. cbn [bind]. split; [reflexivity|]. repeat (split; [congruence|]).
+        rewrite Vr', Vq'. split; lia.
+      - exists q, rem. split; [reflexivity|]. repeat (split; [assumption|]). split; lia.
+      - destruct (sub_val rem dv Hrem Hdv ltac:(lia)) as (r' & -> & Hr' & Kr' & Lr' & Vr').
+        destruct (set1_val P q 0 Hq ltac:(lia) Vq) as (q' & -> & Hq' & Kq' & Lq' & Vq').
+        exists q', r'. cbn [bind]. split; [reflexivity|]. repeat (split; [congruence|]).
+        rewrite Vr', Vq'. change (2 ^ 1) with 2 in Vr. change (2 ^ 0) with 1. split; lia. }
+    rewrite E. cbn [bind]. clear E.
+    assert (xlen dv < 2 ^ 62) as Hdl by (rewrite Ld; exact Hn).
+    destruct (shr1_val dv Hdv Hdl) as (dv' & -> & _). cbn [bind].
+    exists q', r'. split; [reflexivity|]. repeat (split; [assumption|]).
+    split; [apply (N.div_unique A B (val q') (val r'))|apply (N.mod_unique A B (val q') (val r'))];
+      try assumption; lia.
+  - (* iteration k + 1 *)
+    cbn [div_loop]. rewrite (cmp_val rem dv Hrem Hdv).
+    rewrite Nat2N.inj_succ, <- N.add_1_r in *. set (j := N.of_nat k) in *.
+    assert (exists q' r', (match val rem ?= val dv with
+                           | Lt => Ok (rem, q)
+                           | _ => let! rem' := x_addsub OpSub rem dv in
+                                  let! q' := x_set P q (j + 1) 1 in Ok (rem', q')
+                           end) = Ok (r', q') /\ Good q' /\ Good r' /\ kind_of q' = K /\ kind_of r' = K /\
+                          xlen q' = n /\ xlen r' = n /\ val r' < B * 2 ^ (j + 1) /\
+                          val q' mod 2 ^ (j + 1) = 0 /\ A = val q' * B + val r')
+      as (q' & r' & E & Hq' & Hr' & Kq' & Kr' & Lq' & Lr' & Vr' & Vq' & HA').
+    { destruct (N.compare_spec (val rem) (val dv)) as [He|Hlt|Hgt].
+      - destruct (sub_val rem dv Hrem Hdv ltac:(lia)) as (r' & -> & Hr' & Kr' & Lr' & Vr').
+        destruct (set1_val P q (j + 1) Hq ltac:(lia) Vq) as (q' & -> & Hq' & Kq' & Lq' & Vq').
+        exists q', r'. cbn [bind]. split; [reflexivity|]. repeat (split; [congruence|]).
+        rewrite Vr', Vq', Vd. apply (step_sub A B (j + 1)); try assumption. lia.
+      - exists q, rem. split; [reflexivity|]. repeat (split; [assumption|]).
+        split; [lia|]. split; [apply step_keep; assumption|assumption].
+      - destruct (sub_val rem dv Hrem Hdv ltac:(lia)) as (r' & -> & Hr' & Kr' & Lr' & Vr').
+        destruct (set1_val P q (j + 1) Hq ltac:(lia) Vq) as (q' & -> & Hq' & Kq' & Lq' & Vq').
+        exists q', r'. cbn [bind]. split; [reflexivity|]. repeat (split; [congruence|]).
+        rewrite Vr', Vq', Vd. apply (step_sub A B (j + 1)); try assumption. lia. }
+    rewrite E. cbn [bind]. clear E.
+    assert (xlen dv < 2 ^ 62) as Hdl by (rewrite Ld; exact Hn).
+    destruct (shr1_val dv Hdv Hdl) as (dv' & -> & Hdv' & _ & Ld' & Vd'). cbn [bind].
+    assert (1 < xlen dv) as H1 by (clear - Hk Ld; lia).
+    specialize (Vd' H1).
+    apply IH; try assumption.
+    + congruence.
+    + clear - Hk. lia.
+    + rewrite Vd', Vd. apply half_shift.
+Qed.
+
+(* ------------------------------------------------------------------ div_rem *)
+
+(* zeros of the dividend's own type and length always exist (also for an array of zero words) *)
+Lemma k_zeros_self a : Good a ->
+  exists q, k_zeros (kind_of a) (xlen a) = Ok q /\ Good q /\ kind_of q = kind_of a /\ xlen q = xlen a /\ val q = 0.
+Proof.
+  intros Ha. destruct a as [w v|v|fx v].
+  - cbn [kind_of k_zeros]. pose proof (Good_wv _ Ha) as (_ & Hl & _). cbn [xw xv] in Hl.
+    destruct (f_zeros_spec w (lenw (wd v)) (xlen (XF w v)) Hl) as (z & -> & Hc & Hlz & Hn & Hr). cbn [bind].
+    exists (XF w z). split; [reflexivity|]. split; [apply ConvP.Good_XF; [apply Ha|assumption]|].
+    split; [cbn [kind_of]; rewrite Hn; reflexivity|]. split; assumption.
+  - destruct (k_zeros_spec KD (xlen (XD v)) I) as [_ H]. destruct (H eq_refl) as (q & E & Hq & Km & Habs).
+    exists q. split; [exact E|]. split; [exact Hq|]. split; [apply kind_of_matches; exact Km|].
+    apply abs_inv; assumption.
+  - destruct (k_zeros_spec KA (xlen (XA fx v)) I) as [_ H]. destruct (H eq_refl) as (q & E & Hq & Km & Habs).
+    exists q. split; [exact E|]. split; [exact Hq|]. split; [apply kind_of_matches; exact Km|].
+    apply abs_inv; assumption.
+Qed.
+
+(* the divisor converted to the dividend's type *)
+Lemma divisor_conv P a b : Good a -> Good b -> N.size (val b) <= xlen a ->
+  exists dv,
+    match a with
+    | XF w v =>
+        let! low := x_copy_range P b 0 (N.size (val b)) in
+        match to_fixed w (lenw (wd v)) low with Ok r => Ok (XF w r) | _ => Panic end
+    | XD _ => let! r := to_dyn b in Ok (XD r)
+    | XA _ _ => to_auto b
+    end = Ok dv /\ Good dv /\ kind_of dv = kind_of a /\ val dv = val b.
+Proof.
+  intros Ha Hb Hs. destruct a as [w v|v|fx v].
+  - destruct (x_copy_range_spec P b 0 (N.size (val b)) Hb (N.le_0_l _) (size_val_le b Hb))
+      as (low & -> & Hlow & _ & Alow). cbn [bind].
+    rewrite (abs_Good b Hb) in Alow. unfold s_slice in Alow. cbn [bval] in Alow.
+    rewrite N.sub_0_r, N.shiftr_0_r, trunc_small in Alow by apply size_lt_pow2.
+    apply (abs_inv low _ _ Hlow) in Alow. destruct Alow as [Ll Vl].
+    pose proof (Good_wv _ Ha) as (_ & Hcap & _). cbn [xw xv] in Hcap. unfold xlen in Hs. cbn [xv] in Hs.
+    destruct (to_fixed_spec w (lenw (wd v)) low (proj2 Ha) Hlow) as [_ H].
+    destruct H as (r & -> & Hc & _ & Hn & Hr); [lia|].
+    exists (XF w r). split; [reflexivity|]. split; [apply ConvP.Good_XF; [apply Ha|assumption]|].
+    split; [cbn [kind_of]; rewrite Hn; reflexivity|]. unfold val at 1, xdata. cbn [xw xv]. congruence.
+  - destruct (to_dyn_spec b Hb) as (r & -> & Hc & _ & Hr). cbn [bind].
+    exists (XD r). split; [reflexivity|]. split; [apply ConvP.Good_XD; assumption|]. split; [reflexivity|exact Hr].
+  - destruct (to_auto_spec b Hb) as (r & -> & Hr & Km & _ & Vr).
+    exists r. split; [reflexivity|]. split; [assumption|]. split; [apply kind_of_matches; exact Km|exact Vr].
+Qed.
+
+Lemma is_zero_val b : Good b -> x_is_zero b = Ok (val b =? 0).
+Proof. intros Hb. rewrite (x_is_zero_spec b Hb), (abs_Good b Hb). reflexivity. Qed.
+
+Theorem x_div_rem_zero P a b : Good a -> Good b -> val b = 0 -> x_div_rem P a b = Panic.
+Proof.
+  intros Ha Hb H0. unfold x_div_rem. rewrite (is_zero_val b Hb). cbn [bind].
+  rewrite H0. reflexivity.
+Qed.
+
+Theorem x_div_rem_spec P a b :
+  Good a -> Good b -> xlen a < 2 ^ 62 -> val b <> 0 ->
+  exists q r, x_div_rem P a b = Ok (q, r) /\ Good q /\ Good r /\
+              kind_of q = kind_of a /\ kind_of r = kind_of a /\
+              abs q = s_div (abs a) (abs b) /\ abs r = s_rem (abs a) (abs b).
+Proof.
+  intros Ha Hb Hlen Hnz.
+  assert (forall q r, Good q -> Good r -> xlen q = xlen a -> xlen r = xlen a ->
+                      val q = val a / val b -> val r = val a mod val b ->
+                      abs q = s_div (abs a) (abs b) /\ abs r = s_rem (abs a) (abs b)) as Hfin.
+  { intros q r Hq Hr Lq Lr Vq Vr. rewrite (abs_Good a Ha), (abs_Good b Hb). unfold s_div, s_rem. cbn [blen bval].
+    split; apply abs_of; try assumption; [apply Hq|apply Hr]. }
+  unfold x_div_rem. rewrite (is_zero_val b Hb). cbn [bind].
+  assert (val b =? 0 = false) as -> by (apply N.eqb_neq; assumption). cbn [negb assert_ bind].
+  destruct (k_zeros_self a Ha) as (q0 & -> & Hq0 & Kq0 & Lq0 & Vq0). cbn [bind].
+  rewrite (ConvP.x_sigbits_spec P b Hb), (ConvP.x_sigbits_spec P a Ha). cbn [bind].
+  pose proof (size_val_le a Ha) as Hsa. pose proof (size_pos (val b) Hnz) as Hsb.
+  destruct (N.ltb_spec (N.size (val a)) (N.size (val b))) as [Hlt|Hge].
+  - destruct (small_div (val a) (val b) Hnz Hlt) as [Ed Em].
+    exists q0, a. split; [reflexivity|]. split; [assumption|]. split; [assumption|].
+    split; [assumption|]. split; [reflexivity|]. apply Hfin; try assumption; congruence.
+  - set (sd := N.size (val b)) in *. set (ss := N.size (val a)) in *.
+    destruct (divisor_conv P a b Ha Hb ltac:(fold sd; lia)) as (dv & E & Hdv & Kdv & Vdv).
+    fold sd in E. rewrite E. clear E. cbn [bind].
+    assert (val b < 2 ^ sd) as Hbs by apply size_lt_pow2.
+    (* resize to the dividend's length *)
+    destruct (x_resize_spec dv (xlen a) 0 Hdv ltac:(lia)) as [_ Hr].
+    destruct Hr as (dv1 & -> & Hdv1 & Kdv1 & Adv1); [left; rewrite Kdv; apply fits_self; assumption|]. cbn [bind].
+    rewrite (abs_Good dv Hdv), <- resize_val in Adv1. apply (abs_inv dv1 _ _ Hdv1) in Adv1. destruct Adv1 as [Ldv1 Vdv1].
+    assert (val dv1 = val b) as Vdv1'.
+    { rewrite Vdv1, Vdv. destruct (xlen a <? xlen dv).
+      - apply N.mod_small. apply N.lt_le_trans with (2 ^ sd); [assumption|apply pow2_le; lia].
+      - change (0 =? 0) with true. cbv iota. apply N.add_0_r. }
+    clear Vdv1.
+    (* shift left: nothing is lost *)
+    destruct (x_shl_assign_spec dv1 (ss - sd) Hdv1 ltac:(lia)) as (dv2 & -> & Hdv2 & Kdv2 & Adv2). cbn [bind].
+    rewrite (abs_Good dv1 Hdv1) in Adv2. unfold s_shl in Adv2. cbn [blen bval] in Adv2.
+    apply (abs_inv dv2 _ _ Hdv2) in Adv2. destruct Adv2 as [Ldv2 Vdv2].
+    assert (val b * 2 ^ (ss - sd) < 2 ^ xlen a) as Hfit.
+    { apply N.lt_le_trans with (2 ^ sd * 2 ^ (ss - sd)).
+      - apply N.mul_lt_mono_pos_r; [apply pow2_pos|assumption].
+      - rewrite <- pow2_add. apply pow2_le. lia. }
+    assert (val dv2 = val b * 2 ^ (ss - sd)) as Vdv2'.
+    { rewrite Vdv2, Ldv1. assert (ss - sd <? xlen a = true) as -> by (apply N.ltb_lt; lia).
+      rewrite Vdv1', N.shiftl_mul_pow2. apply trunc_small. assumption. }
+    clear Vdv2.
+    destruct (div_loop_spec P (val a) (val b) (xlen a) (kind_of a) ltac:(lia) Hlen
+                (N.to_nat (ss - sd)) a dv2 q0) as (q & r & -> & Hq & Hr & Kq & Kr & Lq & Lr & Vq & Vr);
+      try assumption; try reflexivity; try congruence; rewrite ?N2Nat.id.
+    + lia.
+    + assumption.
+    + apply N.lt_le_trans with (2 ^ ss); [apply size_lt_pow2|].
+      apply N.le_trans with (2 ^ (sd - 1) * 2 ^ (ss - sd + 1)).
+      * rewrite <- pow2_add. apply pow2_le. lia.
+      * apply N.mul_le_mono_r. apply size_low. assumption.
+    + rewrite Vq0. apply N.mod_0_l, pow2_ne0.
+    + rewrite Vq0. lia.
+    + exists q, r. split; [reflexivity|]. split; [assumption|]. split; [assumption|].
+      split; [assumption|]. split; [assumption|]. apply Hfin; assumption.
+Qed.
+
+(* ------------------------------------------------------------------ the / and % operators *)
+
+Lemma xlen_core x : xlen (core x) = xlen x.
+Proof. destruct x as [w v|v|[|] v]; reflexivity. Qed.
+
+Lemma rewrap_good lhs q : Good lhs -> Good q -> kind_of q = kind_of (core lhs) ->
+  Good (rewrap lhs q) /\ kind_of (rewrap lhs q) = kind_of lhs /\ abs (rewrap lhs q) = abs q.
+Proof.
+  intros Hl Hq Hk. destruct lhs as [w v|v|[|] v]; cbn [rewrap core kind_of] in *.
+  - split; [assumption|]. split; [assumption|reflexivity].
+  - split; [assumption|]. split; [assumption|reflexivity].
+  - destruct q as [w' u|u|fx u]; try discriminate Hk. cbn [kind_of] in Hk. injection Hk as Hw Hn. subst w'.
+    cbn [xv]. split; [|split; reflexivity].
+    apply ConvP.Good_XA_fixed; [exact (Good_wv _ Hq)|]. rewrite Hn. apply Hl.
+  - destruct q as [w' u|u|fx u]; try discriminate Hk.
+    cbn [xv]. split; [|split; reflexivity].
+    apply ConvP.Good_XA_dyn. exact (Good_wv _ Hq).
+Qed.
+
+Theorem x_divrem_op_zero P a b : Good a -> Good b -> val b = 0 -> x_divrem_op P a b = Panic.
+Proof.
+  intros Ha Hb H0. unfold x_divrem_op.
+  rewrite x_div_rem_zero; [reflexivity|apply Good_core; assumption|apply Good_core; assumption|].
+  rewrite val_core. assumption.
+Qed.
+
+Theorem x_divrem_op_spec P a b :
+  Good a -> Good b -> xlen a < 2 ^ 62 -> val b <> 0 ->
+  exists q r, x_divrem_op P a b = Ok (q, r) /\ Good q /\ Good r /\
+              kind_of q = kind_of a /\ kind_of r = kind_of a /\
+              abs q = s_div (abs a) (abs b) /\ abs r = s_rem (abs a) (abs b).
+Proof.
+  intros Ha Hb Hlen Hnz. unfold x_divrem_op.
+  destruct (x_div_rem_spec P (core a) (core b) (Good_core a Ha) (Good_core b Hb))
+    as (q & r & -> & Hq & Hr & Kq & Kr & Aq & Ar); [rewrite xlen_core; assumption|rewrite val_core; assumption|].
+  cbn [bind]. rewrite !abs_core in *.
+  destruct (rewrap_good a q Ha Hq Kq) as (G1 & G2 & G3).
+  destruct (rewrap_good a r Ha Hr Kr) as (G4 & G5 & G6).
+  exists (rewrap a q), (rewrap a r). split; [reflexivity|]. repeat (split; [assumption|]).
+  split; congruence.
+Qed.
+
+(* ------------------------------------------------------------------ insert *)
+
+Theorem x_insert_spec P a i x :
+  Good a -> Good x -> i <= xlen a ->
+  (fits (kind_of a) (xlen a + xlen x) = false -> x_insert P a i x = Panic) /\
+  (fits (kind_of a) (xlen a + xlen x) = true ->
+   exists r, x_insert P a i x = Ok r /\ Good r /\ kind_of r = kind_of a /\ abs r = s_insert (abs a) i (abs x)).
+Proof.
+  intros Ha Hx Hi. unfold x_insert.
+  destruct (x_split_off_spec P a i Ha Hi) as (lo & hi & -> & Hlo & Hhi & Klo & Khi & Alo & Ahi). cbn [bind].
+  assert (xlen lo = i) as Llo by (rewrite <- blen_abs, Alo; cbn [s_slice blen]; lia).
+  assert (xlen hi = xlen a - i) as Lhi by (rewrite <- blen_abs, Ahi; reflexivity).
+  destruct (x_append_spec lo x Hlo Hx) as [P1 O1]. rewrite Klo, Llo in P1, O1.
+  destruct (fits (kind_of a) (i + xlen x)) eqn:F1.
+  - destruct (O1 eq_refl) as (m & -> & Hm & Km & Am). cbn [bind].
+    assert (xlen m = i + xlen x) as Lm.
+    { rewrite <- blen_abs, Am. unfold s_append, s_concat. cbn [blen]. rewrite !blen_abs. lia. }
+    destruct (x_append_spec m hi Hm Hhi) as [P2 O2]. rewrite Km, Lm, Lhi in P2, O2.
+    replace (i + xlen x + (xlen a - i)) with (xlen a + xlen x) in P2, O2 by lia.
+    split; [exact P2|]. intros F2. destruct (O2 F2) as (r & -> & Hr & Kr & Ar).
+    exists r. split; [reflexivity|]. split; [assumption|]. split; [assumption|].
+    rewrite Ar, Am, Alo, Ahi. reflexivity.
+  - rewrite (P1 eq_refl). cbn [bind]. split; [reflexivity|]. intros F2.
+    rewrite (fits_mono (kind_of a) (i + xlen x) (xlen a + xlen x) ltac:(lia) F2) in F1. discriminate F1.
+Qed.
+
+Theorem x_insert_debug_oob a i x : xlen a < i -> x_insert Debug a i x = Panic.
+Proof. intros H. unfold x_insert. rewrite x_split_off_debug_oob by assumption. reflexivity. Qed.
+
+(* ------------------------------------------------------------------ decimal formatting *)
+
+Local Notation dch := (fun d : N => 48 + d).
+
+Lemma size_div10 x : x <> 0 -> N.size (x / 10) < N.size x.
+Proof.
+  intros H. pose proof (size_pos x H) as Hs. pose proof (size_lt_pow2 x) as Hx.
+  assert (N.size (x / 10) <= N.size x - 1) as Hle; [|lia].
+  apply size_le_of_lt. replace (N.size x) with ((N.size x - 1) + 1) in Hx by lia. rewrite pow2_succ in Hx.
+  generalize dependent (2 ^ (N.size x - 1)). intros p Hp. lia.
+Qed.
+
+(* any sufficient fuel gives the same digits *)
+Lemma ddf_fuel f1 : forall f2 x acc,
+  (N.to_nat (N.size x) < f1)%nat -> (N.to_nat (N.size x) < f2)%nat ->
+  digits_dec_fuel f1 x acc = digits_dec_fuel f2 x acc.
+Proof.
+  induction f1 as [|f1 IH]; intros f2 x acc H1 H2; [lia|]. destruct f2 as [|f2]; [lia|].
+  cbn [digits_dec_fuel]. destruct (N.eqb_spec x 0) as [|Hx]; [reflexivity|].
+  pose proof (size_div10 x Hx). apply IH; lia.
+Qed.
+
+Lemma ddf_nonempty f : forall x acc, acc <> [] -> digits_dec_fuel f x acc <> [].
+Proof.
+  induction f as [|f IH]; intros x acc H; cbn [digits_dec_fuel]; [assumption|].
+  destruct (x =? 0); [assumption|]. apply IH. discriminate.
+Qed.
+
+Lemma std_width_32 : std_width 32.
+Proof. unfold std_width. cbn [In]. auto. Qed.
+Lemma std_width_8 : std_width 8.
+Proof. unfold std_width. cbn [In]. auto. Qed.
+
+(* the digit of a remainder below ten, as `u32::try_from(&remainder).unwrap()` *)
+Lemma digit_to_uint P r : Good r -> val r < 10 ->
+  (let! sig := x_sigbits P r in
+   if is_fixed r then f_to_uint (xw r) 32 sig (xv r) else d_to_uint 32 sig (xv r)) = Ok (val r).
+Proof.
+  intros Hr Hlt. pose proof (x_to_uint_spec P r 32 Hr std_width_32) as HU. unfold x_to_uint in HU.
+  rewrite HU. assert (N.size (val r) <=? 32 = true) as ->; [|reflexivity].
+  apply N.leb_le. apply N.le_trans with 4; [|lia]. apply size_le_of_lt. change (2 ^ 4) with 16. lia.
+Qed.
+
+Lemma dec_loop_spec P base : Good base -> val base = 10 ->
+  forall f q acc, Good q -> xlen q < 2 ^ 62 -> (N.to_nat (N.size (val q)) < f)%nat ->
+  dec_loop P f q base (map dch acc) = Ok (map dch (digits_dec_fuel f (val q) acc)).
+Proof.
+  intros Hb Vb. induction f as [|f IH]; intros q acc Hq Hl Hf; [lia|].
+  cbn [dec_loop digits_dec_fuel]. rewrite (is_zero_val q Hq). cbn [bind].
+  destruct (N.eqb_spec (val q) 0) as [E|Hnz]; [reflexivity|].
+  destruct (x_div_rem_spec P q base Hq Hb Hl ltac:(lia)) as (q' & r & -> & Hq' & Hr & _ & _ & Aq & Ar). cbn [bind].
+  rewrite (abs_Good q Hq), (abs_Good base Hb) in Aq, Ar. unfold s_div, s_rem in Aq, Ar. cbn [blen bval] in Aq, Ar.
+  rewrite Vb in Aq, Ar.
+  apply (abs_inv q' _ _ Hq') in Aq. destruct Aq as [Lq' Vq'].
+  apply (abs_inv r _ _ Hr) in Ar. destruct Ar as [_ Vr].
+  assert (val r < 10) as Hr10 by (rewrite Vr; apply N.mod_lt; lia).
+  pose proof (digit_to_uint P r Hr Hr10) as HU.
+  destruct (x_sigbits P r) as [sig| | |]; cbn [bind] in HU |- *; try discriminate HU.
+  rewrite HU. cbn [bind].
+  assert (val r <? 10 = true) as -> by (apply N.ltb_lt; assumption). cbn [assert_ bind].
+  rewrite Vr. change (48 + val q mod 10 :: map dch acc) with (map dch (val q mod 10 :: acc)).
+  rewrite <- Vq'. apply IH; [assumption|lia|].
+  rewrite Vq'. pose proof (size_div10 (val q) Hnz). lia.
+Qed.
+
+(* the base `B::try_from(10u8).unwrap()` of the variant's own type: an array needs one word *)
+Lemma display_base a : Good a -> XEdit.kind_ok (kind_of a) ->
+  exists base,
+    match core a with
+    | XF w v => match f_from_uint w (lenw (wd v)) 8 10 with Ok b => Ok (XF w b) | _ => Panic end
+    | _ => let! b := d_from_uint 8 10 in Ok (XD b)
+    end = Ok base /\ Good base /\ val base = 10.
+Proof.
+  intros Ha Hk.
+  assert (forall w n, std_width w -> 0 < n ->
+            exists base, match f_from_uint w n 8 10 with Ok b => Ok (XF w b) | _ => Panic end = Ok base /\
+                         Good base /\ val base = 10) as HF.
+  { intros w n Hw Hn. destruct (f_from_uint_spec w n 8 10 (std_width_pos w Hw) Hn eq_refl) as [_ H].
+    destruct H as (r & -> & Hc & _ & _ & Hr).
+    - change (N.size 10) with 4. pose proof (std_width_ge8 w Hw).
+      apply N.le_trans with (8 * 1); [lia|]. apply N.mul_le_mono; lia.
+    - exists (XF w r). split; [reflexivity|]. split; [apply ConvP.Good_XF; assumption|exact Hr]. }
+  assert (exists base, (let! b := d_from_uint 8 10 in Ok (XD b)) = Ok base /\ Good base /\ val base = 10) as HD.
+  { destruct (d_from_uint_spec 8 10 std_width_8 eq_refl) as (r & -> & Hc & _ & Hr). cbn [bind].
+    exists (XD r). split; [reflexivity|]. split; [apply ConvP.Good_XD; assumption|exact Hr]. }
+  destruct a as [w v|v|[|] v]; cbn [core].
+  - destruct Hk as [Hw Hn]. apply HF; assumption.
+  - exact HD.
+  - apply HF; [apply std_width_64|]. destruct Ha as [[_ Hn] _]. rewrite Hn. lia.
+  - exact HD.
+Qed.
+
+(* `fmt_display_spec` as assigned,
+     Good a -> xlen a < 2 ^ 62 -> fmt_display P a = Ok (map (fun d => 48 + d) (digits_dec (val a))),
+   is FALSE for an array type with no storage word (Bvf<I, 0>, which `Good` admits with length 0):
+   the base ten is built with `Bvf::<I,0>::try_from(10u8).unwrap()`, whose body stores into
+   `data[0]` and panics, so Display panics instead of printing "0":
+     fmt_display Release (XF 8 (mkwv [] 0)) = Panic       (checked with Eval vm_compute)
+   It holds for every kind with at least one word (`kind_ok`, as required by the constructors). *)
+Theorem fmt_display_spec_fixed P a :
+  Good a -> XEdit.kind_ok (kind_of a) -> xlen a < 2 ^ 62 ->
+  fmt_display P a = Ok (map (fun d => 48 + d) (digits_dec (val a))).
+Proof.
+  intros Ha Hk Hl. unfold fmt_display.
+  destruct (display_base a Ha Hk) as (base & -> & Hb & Vb). cbn [bind].
+  pose proof (dec_loop_spec P base Hb Vb (S (N.to_nat (xlen a))) (core a) [] (Good_core a Ha)) as HL.
+  rewrite xlen_core, val_core in HL. change (map dch []) with (@nil N) in HL.
+  pose proof (size_val_le a Ha) as Hs.
+  rewrite HL by (try assumption; lia). cbn [bind]. f_equal. unfold digits_dec.
+  destruct (N.eqb_spec (val a) 0) as [E|Hnz].
+  - rewrite E. reflexivity.
+  - rewrite (ddf_fuel _ (S (N.to_nat (N.size (val a)))) (val a) []) by lia.
+    set (s := digits_dec_fuel _ _ _).
+    assert (s <> []) as Hne.
+    { unfold s. cbn [digits_dec_fuel]. assert (val a =? 0 = false) as -> by (apply N.eqb_neq; assumption).
+      apply ddf_nonempty. discriminate. }
+    destruct s as [|d s']; [contradiction|]. reflexivity.
+Qed.
+
+Lemma fmt_display_counterexample :
+  Good (XF 8 (mkwv [] 0)) /\ xlen (XF 8 (mkwv [] 0)) < 2 ^ 62 /\
+  fmt_display Release (XF 8 (mkwv [] 0)) = Panic /\ fmt_display Debug (XF 8 (mkwv [] 0)) = Panic.
+Proof.
+  split; [|split; [reflexivity|split; reflexivity]].
+  split; [apply canonb_spec; reflexivity|apply std_width_8].
+Qed.
+
+(* every array without a storage word panics in Display *)
+Lemma fmt_display_no_word P w v : lenw (wd v) = 0 -> fmt_display P (XF w v) = Panic.
+Proof.
+  intros H. unfold fmt_display. cbn [core]. rewrite H. unfold f_from_uint.
+  destruct (8 <=? w).
+  - unfold seto. rewrite lenw_zerosw. reflexivity.
+  - change (N.size 10) with 4. rewrite N.mul_0_r. reflexivity.
+Qed.
+
+(* `x_fmt_digits_display` as assigned fails on the same inputs (x_fmt_digits P 0 = fmt_display) *)
+Theorem x_fmt_digits_display_fixed P a :
+  Good a -> XEdit.kind_ok (kind_of a) -> xlen a < 2 ^ 62 -> x_fmt_digits P 0 a = Ok (s_fmt 0 (abs a)).
+Proof.
+  intros Ha Hk Hl. cbn [x_fmt_digits]. rewrite (fmt_display_spec_fixed P a Ha Hk Hl). cbn [bind].
+  rewrite (abs_Good a Ha). reflexivity.
+Qed.
+
+Lemma x_fmt_digits_display_counterexample :
+  x_fmt_digits Release 0 (XF 8 (mkwv [] 0)) = Panic.
+Proof. reflexivity. Qed.
+
+(* the same statements under the name asked for by PROOF_GUIDE.md *)
+Theorem fmt_display_spec_partial P a :
+  Good a -> XEdit.kind_ok (kind_of a) -> xlen a < 2 ^ 62 ->
+  fmt_display P a = Ok (map (fun d => 48 + d) (digits_dec (val a))).
+Proof. apply fmt_display_spec_fixed. Qed.
+
+Theorem x_fmt_digits_display_partial P a :
+  Good a -> XEdit.kind_ok (kind_of a) -> xlen a < 2 ^ 62 -> x_fmt_digits P 0 a = Ok (s_fmt 0 (abs a)).
+Proof. apply x_fmt_digits_display_fixed. Qed.
